@@ -229,6 +229,8 @@ def _digits(x):
     if isinstance(x, bool):
         return 1
     if isinstance(x, int):
+        if abs(x).bit_length() > 10000:
+            return int(abs(x).bit_length() * 0.30102) + 1          # (int -> str conversion is limited to 4300 digits)
         return len(str(abs(x)))
     if isinstance(x, RealDecimal):
         return len(x.as_tuple().digits) if x.is_finite() else 1
@@ -313,4 +315,60 @@ def operator_digits(di: int, dj: int, big: bool, ia: bool, ib: bool) -> None:
     if raised is None and not isinstance(r, bool):
         assert _digits(r) <= max(28, max(_digits(a), _digits(b)) + 1), \
             "operator %s on %r, %r returned %d significant digits" % (op, a, b, _digits(r))
+    hlib.done()
+
+
+# whole programs through the real lexer + parser + evaluator: parse-time shortcuts (folding, rewriting) are on this route only
+from sqv.harness import txt as _txt          # (constructs its parsers at import, outside any explored path)
+TEXTS = [
+    "(True + True) * (True + True)",
+    "(True + True) ** (True + True) ** (True + True) ** (True + True) ** (True + True)",
+    "(True + True + True) ** 200",
+    "x = True + True\nx *= x\nx *= x\nx",
+    "True * 3",
+    "(True + a) * (True + b)",
+    "(a + 1) * (b + 1) * (a + 2)",
+    "a * b * a * b",
+    "x = a\nx *= b\nx *= x\nx *= x\nx",
+    "(a * b) ** 3",
+    "d = {'k': a}\nd['k'] *= b\nd['k'] *= d['k']\nd['k']",
+    "[a, b] | map(v => v * v * v) | sum",
+    "[a, b, a] | reduce((p, q) => p * q)",
+    "7 * 3 ** 50 * True",
+    "1000000000000000 * 3000000000000000",
+    "x = 1000000000000000\nx *= x\nx *= x\nx *= x\nx",
+    "-(a * b) * (0 - b)",
+    "2 ** 0.5 * 2 ** 0.5 * a",
+]
+
+
+def text_digits(ai: int, bi: int, cached: bool) -> None:
+    """
+    pre: 0 <= ai < 8 and 0 <= bi < 8
+    post: True
+    """
+    # products and powers computed by whole programs (host ints up to 30 digits): Decimal results of at most
+    # max(28, widest operand + 1) significant digits, context untouched - whatever the parser did with the text
+    hlib.enter(locals())
+    text = TEXTS[hlib.PARAM["t"]]
+    ai, bi = hlib.concrete(ai, 0, 7), hlib.concrete(bi, 0, 7)
+    cached = True if cached else False
+    a, b = IPOOL[ai], IPOOL[bi]
+    raised, r = None, None
+    with hlib.native():
+        P = _txt.CACHING if cached else _txt.PARSER
+        for _round in range(2 if cached else 1):
+            try:
+                r = P.eval(text, {'a': a, 'b': b}, max_ops_evaluated=200)
+            except Exception as e:
+                raised = e
+        c = _decimal.getcontext()
+        ctx_ok = c.prec == 28 and c.rounding == ROUND_HALF_EVEN
+        nd = _digits(r) if raised is None else 0
+        is_dec = isinstance(r, RealDecimal)
+        rtype = type(r).__name__
+    assert ctx_ok, "decimal context changed by evaluating %r" % text
+    if raised is None:
+        assert is_dec, "%r returned a %s, not a Decimal: the product / power was not computed in Decimal arithmetic" % (text, rtype)
+        assert nd <= max(28, max(_digits(a), _digits(b)) + 1), "%r returned %d significant digits" % (text, nd)
     hlib.done()
